@@ -48,7 +48,7 @@ def severityTable : List (String × Nat) := [
 
 /-- os.Exit sites of internal/cmd: (function, nearest enclosing if-condition, argument), as source text -/
 def cliExitTable : List (String × String × String) := [
-  ("check", "errorsCount != 0", "errorsCount"),
+  ("check", "errorsCount != 0", "1"),
   ("run", "len(parseResult.Errors) != 0", "1"),
   ("run", "err != nil", "1"),
   ("Execute", "err != nil", "1")
